@@ -733,10 +733,31 @@ func coversWholeSlice(ia *ssa.IndexAddr, body *ssa.BasicBlock) bool {
 			continue
 		}
 		if call, ok := stripConv(y).(*ssa.Call); ok {
-			if b, ok := call.Call.Value.(*ssa.Builtin); ok && b.Name() == "len" && stripConv(call.Call.Args[0]) == stripConv(ia.X) {
+			if b, ok := call.Call.Value.(*ssa.Builtin); ok && b.Name() == "len" && sameSliceValue(call.Call.Args[0], ia.X) {
 				return true
 			}
 		}
 	}
 	return false
+}
+
+// sameSliceValue: a and b are the same SSA value, or two loads of the same field of the same object in a function that
+// never stores to that field (so both loads observe the same slice).
+func sameSliceValue(a, b ssa.Value) bool {
+	a, b = stripConv(a), stripConv(b)
+	if a == b {
+		return true
+	}
+	la, ok1 := a.(*ssa.UnOp)
+	lb, ok2 := b.(*ssa.UnOp)
+	if !ok1 || !ok2 || la.Op != token.MUL || lb.Op != token.MUL {
+		return false
+	}
+	fa, ok1 := la.X.(*ssa.FieldAddr)
+	fb, ok2 := lb.X.(*ssa.FieldAddr)
+	if !ok1 || !ok2 || fa.Field != fb.Field || stripConv(fa.X) != stripConv(fb.X) {
+		return false
+	}
+	fv, _ := fieldAddrOf(fa)
+	return fv != nil && len(storesTo(la.Parent(), fv)) == 0
 }
